@@ -97,3 +97,62 @@ def writepickle(h):
     assumptions=['T7', 'tee trace compared with the trace contract of _writepickle: same events per row', 'stateless-body rule'])
 def teepickle(h):
     common(h, PK + 'TeePickleView.__iter__', True)
+
+
+@vc('C15.PickleView', functions=[PK + 'PickleView.__iter__'], props=['C15', 'C02'],
+    assumptions=['T7: successive pickle.load(f) calls return the records of the file in order and raise EOFError after the last one',
+                 'while-loop invariant rule with a ghost record counter'])
+def pickleview(h):
+    """frompickle: one row per pickled record, in file order, each loaded only when it is requested (C02); the file is closed
+    on every exit; EOFError ends the table and nothing else is swallowed."""
+    def body(ctx):
+        box = {'pos': z3.IntVal(0), 'yields': []}
+        recs = sym_table(ctx, 'RECS', nmin=0)
+        qn = PK + 'PickleView.__iter__'
+
+        def hook(interp, fn, args, kwargs, node):
+            name = fn.name
+            if name == 'source.open':
+                it.trace.append(('open', args[0] if args else None))
+                return Opaque('file', 'f')
+            if name.endswith('pickle.load'):
+                it.trace.append(('load', args[0]))
+                if ctx.branch(box['pos'] < recs.n, 'another record'):
+                    r = SCell(z3.Select(recs.rows, box['pos']))
+                    box['pos'] = z3.simplify(box['pos'] + 1)
+                    return r
+                raise PyExc('EOFError', None, interp.where(node))
+            raise Unsupported('external call %s' % name)
+
+        def rebind(ls):
+            p = smt.fresh_int('p')
+            ctx.assume(z3.And(0 <= p, p <= recs.n))
+            box['pos'] = p
+            box['p0'] = p
+            box['yields'] = []
+            box['loads0'] = len([e for e in it.trace if e[0] == 'load'])
+
+        def after(ls):
+            ys = box['yields']
+            loads = len([e for e in it.trace if e[0] == 'load']) - box['loads0']
+            ok = len(ys) == 1 and isinstance(ys[0], Seq)
+            ctx.oblige('PickleView: each step loads exactly ONE record and yields it once, as a tuple of itself, in file order',
+                       z3.And(z3.BoolVal(bool(ok) and loads == 1), box['pos'] == box['p0'] + 1,
+                              _t(row_eq(ys[0], src_row(recs, box['p0']))) if ok else z3.BoolVal(False)))
+        spec = LoopSpec(invariant=lambda ls: z3.BoolVal(True), label='records')
+        spec.rebind = rebind
+        spec.after_body = after
+        it = h.interp(ctx, loops={(qn, 0): spec})
+        it.opaque_hook = hook
+        it.on_yield = lambda v, node: box['yields'].append(v)
+        it.load_module('petl.io.pickle')
+        cls = closure_of(it, PK + 'PickleView')
+        view = it.call(cls, [Opaque('source', 'source')], {})
+        res = run_generator(it, cls.find('__iter__')[0], [view])
+        names = [e[0] for e in it.trace]
+        if res.exc is not None:
+            ctx.oblige('PickleView: never raises', z3.BoolVal(False), res.exc.origin or '')
+            return
+        ctx.oblige('PickleView: the pass ends exactly when the records are exhausted (EOFError from the load after the last one); the file is closed',
+                   z3.And(box['pos'] == recs.n, z3.BoolVal('with-exit' in names and names.index('with-exit') == len(names) - 1)))
+    h.explore(body)
